@@ -501,8 +501,8 @@ impl Model {
                 }
             }
             Gc | NodeCount { .. } | EvalAll { .. } | SatValid { .. } | PickCube { .. } | PickUniform { .. }
-            | SatCount { .. } | NatOps { .. } => {}
-            AddVars { k } => {
+            | SatCount { .. } | NatOps { .. } | BigCount { .. } => {}
+            AddVars { k } | AddVarsInReorder { k } => {
                 if self.n + *k as u32 <= crate::tt::MAX_VARS {
                     self.add_vars(*k as u32)
                 }
